@@ -1060,6 +1060,30 @@ int World::issue(int reqidx, bool from_cb)
       ares_dns_record_destroy(rec);
       break;
     }
+    case 10: {
+      // hand-built record with compressible names: question + an authority NS record below the question's zone
+      // and an additional A record for the name server (three names sharing suffixes)
+      ares_dns_record_t *rec = nullptr;
+      ares_dns_rr_t     *rr  = nullptr;
+      bool               ok  = ares_dns_record_create(&rec, 0, ARES_FLAG_RD, ARES_OPCODE_QUERY, ARES_RCODE_NOERROR) == ARES_SUCCESS &&
+                ares_dns_record_query_add(rec, r.name.c_str(), (ares_dns_rec_type_t)r.qtype, ARES_CLASS_IN) == ARES_SUCCESS;
+      std::string zone = r.name.substr(r.name.find('.') + 1);
+      if (ok) ok = ares_dns_record_rr_add(&rr, rec, ARES_SECTION_AUTHORITY, zone.c_str(), ARES_REC_TYPE_NS, ARES_CLASS_IN, 300) == ARES_SUCCESS &&
+                   ares_dns_rr_set_str(rr, ARES_RR_NS_NSDNAME, ("ns1." + zone).c_str()) == ARES_SUCCESS;
+      if (ok) ok = ares_dns_record_rr_add(&rr, rec, ARES_SECTION_ADDITIONAL, ("ns1." + zone).c_str(), ARES_REC_TYPE_A, ARES_CLASS_IN, 300) == ARES_SUCCESS;
+      if (ok) {
+        struct in_addr a;
+        a.s_addr = htonl(0x0a000035);
+        ok       = ares_dns_rr_set_addr(rr, ARES_RR_A_ADDR, &a) == ARES_SUCCESS;
+      }
+      if (ok) ares_send_dnsrec(ch, rec, cb_dnsrec, c, nullptr);
+      else {
+        toks[(size_t)c->tok].count  = 1;
+        toks[(size_t)c->tok].status = -2;
+      }
+      ares_dns_record_destroy(rec);
+      break;
+    }
     case 1: {
       unsigned char *buf = nullptr;
       int            len = 0;
